@@ -408,6 +408,9 @@ pub fn run(tier: Tier) -> i32 {
         Box::new(ms_b(5, false)),
         Box::new(ms_c()),
         Box::new(ms_d(t)),
+        Box::new(crate::families::scale_family(true)),
+        Box::new(crate::families::unicode_family()),
+        Box::new(crate::families::relation_family()),
         Box::new(ms_e(if t { 1 } else { 0 })),
     ];
     let corpus = corpus_files();
